@@ -317,3 +317,46 @@ Proof.
   - replace (N.min e (lenN c) - s) with 0 by lia. now rewrite firstnN_0.
   - replace (N.min e (lenN c) - s) with 0 by lia. now rewrite firstnN_0.
 Qed.
+
+(* ---------------------------------------------------------------- 5. composition with C10 (Segment.v)
+   the segments split_at_splitters(_with_size) produces, stored as they are (raw_length = their length, not
+   reverse-complemented), satisfy wf and reconstruct to the contig that was split; so the queries answer with
+   slices of that contig.  (What the store does to a segment - orientation, LZ coding - is C01/C02.) *)
+From Ragc Require Segment Segment_proofs.
+
+Definition of_segment (sg : Segment.segment) : rseg :=
+  mkRSeg (lenN (Segment.sdata sg)) false (Segment.sdata sg).
+
+Lemma split_wf_reconstruct ws contig spl k : 1 <= k <= 32 ->
+  let segs := map of_segment (Segment.split_gen ws contig spl k) in
+  wf k segs /\ reconstruct_contig k segs = Ok contig.
+Proof.
+  intros Hk segs.
+  assert (Hwf : wf k segs).
+  { split.
+    - subst segs. apply Forall_forall. intros x Hx. apply in_map_iff in Hx. destruct Hx as (sg & <- & _). reflexivity.
+    - subst segs. destruct (Segment.split_gen ws contig spl k) as [|s0 rest] eqn:E; [constructor|].
+      cbn [map tl]. apply Forall_forall. intros x Hx. apply in_map_iff in Hx. destruct Hx as (sg & <- & Hin).
+      apply In_nth_error in Hin. destruct Hin as [i Hi].
+      assert (H := Segment_proofs.later_len_ge_k_proof ws contig spl k i sg Hk).
+      rewrite E in H. specialize (H Hi). cbn [of_segment rs_data]. unfold lenN. lia. }
+  split; [exact Hwf|].
+  rewrite reconstruct_total_proof by exact Hwf. f_equal. subst segs.
+  destruct (Segment.split_gen ws contig spl k) as [|s0 rest] eqn:E.
+  - exfalso. exact (Segment_proofs.nonempty_output_proof ws contig spl k E).
+  - cbn [map tiled]. rewrite map_map. unfold oriented, of_segment. cbn [rs_rc rs_data].
+    exact (Segment_proofs.tiling_proof ws contig spl k s0 rest Hk E).
+Qed.
+
+Lemma range_on_split_proof : forall ws contig spl k s e, 1 <= k <= 32 -> lenN contig <= isize_max ->
+  let segs := map (fun sg => mkRSeg (lenN (Segment.sdata sg)) false (Segment.sdata sg))
+                  (Segment.split_gen ws contig spl k) in
+  get_contig_length k segs = Ok (lenN contig) /\
+  get_contig_range k segs s e = Ok (firstnN (N.min e (lenN contig) - s) (skipnN s contig)).
+Proof.
+  intros ws contig spl k s e Hk Hb segs.
+  destruct (split_wf_reconstruct ws contig spl k Hk) as [Hwf Hrec]. fold of_segment in segs. fold segs in Hwf, Hrec.
+  split.
+  - apply length_correct_proof; assumption.
+  - apply range_correct_proof; try assumption. unfold two32. lia.
+Qed.
